@@ -211,6 +211,9 @@ static sqf::runtime::runtime::result execute_do(sqf::runtime::runtime& runtime, 
 #endif // DF__SQF_RUNTIME__ASSEMBLY_DEBUG_ON_EXECUTE
 
 
+#ifdef SQFVM_RUNTIME_VERIF
+        sqf::runtime::verif::observe(sqf::runtime::verif::obs::instr_begin, runtime, 0);
+#endif
         (*instruction)->execute(runtime);
 
 
